@@ -60,6 +60,7 @@ type World struct {
 	flags   map[string]bool
 	ids     map[int]int64
 	hands   map[int]*handState
+	allHands []*handState
 	hmu     sync.Mutex
 }
 
@@ -470,6 +471,7 @@ func (w *World) handlerStarted(h *handState) {
 		w.logf("hstart-duplicate r=%d", h.r)
 	}
 	w.hands[h.r] = h
+	w.allHands = append(w.allHands, h)
 	w.hmu.Unlock()
 	w.logf("hstart r=%d shape=%s md=%s deadline=%s tmd=%s peer=%s icpt=%s", h.r, h.shape, encMD(md), dl, tmds, encStr(pa), encStr(ic))
 }
